@@ -52,7 +52,8 @@ def contract(target, props, name=None, status='P'):
             cls.cname = name
         cls.status = status
         for attr, default in (('ghost', None), ('requires', None), ('hooks', {}), ('raises', {}),
-                              ('may_raise', {}), ('call', None), ('samples', 40), ('budget', None)):
+                              ('may_raise', {}), ('call', None), ('samples', 40), ('budget', None),
+                              ('native', True)):
             if not hasattr(cls, attr):
                 setattr(cls, attr, default)
         REGISTRY[cls.cname] = cls
@@ -635,8 +636,8 @@ def verify_unit(cname, case_label, tier, seed):
     finally:
         CTX.path = None
     # safety net: sampled evaluation of the same contract on the real function when something is not discharged
-    if any(o['verdict'] != 'unsat' and not (o.get('cex') or {}).get('confirmed') for o in res['obligations']) \
-            or res['status'] != 'ok':
+    if C.native and (any(o['verdict'] != 'unsat' and not (o.get('cex') or {}).get('confirmed')
+                         for o in res['obligations']) or res['status'] != 'ok'):
         res['sampled'] = sample_unit(cname, case_label, seed, n=max(C.samples, 200))
     res['wall_s'] = round(time.time() - t_start, 3)
     return res
@@ -705,6 +706,9 @@ def _small(info):
 def replay_model(C, args, ghosts, model, label):
     """Turn a counter-model into concrete arguments and run the real function natively."""
     try:
+        if not C.native:
+            return {'confirmed': False, 'why': 'contract runs only under the interpreter (callees replaced by hooks '
+                    'on opaque values): no native replay'}
         if _has_opaque(args):
             return {'confirmed': False, 'why': 'arguments contain opaque sub-trees (induction hypothesis): the '
                     'counter-model is not an input; see the sampled evaluation on concrete trees'}
